@@ -32,8 +32,11 @@ def run():
     C.require_build("gensim", features=["extras"], variant="extras")
     C.say("built gensim (grammar-extras)")
     from . import c20real
-    c20real.build_host()
-    C.say("built the derive with the nightly toolchain (real-bridge tier)")
+    try:
+        c20real.build_host()
+        C.say("built the derive with the nightly toolchain (real-bridge tier)")
+    except c20real.HostUnavailable as e:
+        C.say("real-bridge tier unavailable: %s" % str(e)[:300])
     # option variants of parsesim used by the C20 configuration swarm (warm the per-variant target dirs)
     from . import c20
     bins, failed = c20.build_variants(list(c20.VARIANTS))
